@@ -1,4 +1,5 @@
 from props.lie import *
+from props import apiops
 
 TOL = {'f64': 1e-7, 'f32': 1e-2}
 AUD = {'dr_exp': ('a_drexp', 'dr_exp(a) != sum_k (-1)^k ad(a)^k/(k+1)!'),
@@ -8,20 +9,38 @@ AUD = {'dr_exp': ('a_drexp', 'dr_exp(a) != sum_k (-1)^k ad(a)^k/(k+1)!'),
        'dr_rminus': ('a_drexpinv', 'dr_rminus(e) is not the inverse right Jacobian at e')}
 
 
+# dr_action(v) is the right Jacobian of g*v in g: audited exactly (rationals) against M(g) hat(e_j) (v,1)
+ACT_TOL = {'f64': 1e-12, 'f32': 1e-5}
+
+
 def audit(lines):
     reqs = []
+    thin = apiops.Thin(3)
     for l in lines:
         p = l.prec + 'a'
-        if l.op in AUD:
-            op, what = AUD[l.op]
+        op0 = apiops.CANON.get(l.op, l.op)
+        if l.op in ('dr_action', 'dr_action_cmap'):
+            k = dict(std_key(l, 'none'), op='dr_action')
+            if l.op != 'dr_action':
+                k['via'] = l.op
+            reqs.append((' '.join(['a_draction', l.grp, p] + l.ins + l.outs),
+                         {'key': k, 'line': l.raw, 'tol': ACT_TOL[l.prec], 'judge': simple_judge,
+                          'what': f'{l.op}(v) is not the right Jacobian of g*v: column j != M(g) hat(e_j) (v,1)'}))
+        elif op0 in AUD:
+            # the free-function forwards are audited one line in three; the new input regions (whole-argument-tiny and zero
+            # tangents) on every line of the member ops
+            if l.op != op0 and not thin.keep(l):
+                continue
+            op, what = AUD[op0]
             reqs.append((' '.join([op, l.grp, p] + l.ins + l.outs),
-                         {'key': std_key(l), 'line': l.raw, 'tol': TOL[l.prec], 'judge': simple_judge, 'what': what}))
+                         {'key': apiops.canon_key(l), 'line': l.raw, 'tol': TOL[l.prec], 'judge': simple_judge, 'what': what}))
     return reqs
 
 
 def make():
     return LieProp('C04', ['dr_exp', 'dr_expinv', 'dl_exp', 'dl_expinv', 'dr_action', 'dr_rminus', 'dr_rminus_sqn',
-                           'calculate_q', 'calculate_r', 'calc_S1', 'calc_S2', 'calc_S1inv', 'cos_2', 'sin_3', 'cos_4', 'sin_5', 'cos_6'],
+                           'calculate_q', 'calculate_r', 'calc_S1', 'calc_S2', 'calc_S1inv', 'cos_2', 'sin_3', 'cos_4', 'sin_5', 'cos_6']
+                   + apiops.API_OPS['C04'],
                    ['SmoothProps/C04.lean'], audit, TOL,
                    rule='harness/lie.cpp: every group type of the catalogue x scalar x 9 rotation-angle strata (1e-12..pi, dense 1e-5..1e-2 '
                         'and at the eps2 switch; inverses up to pi-1.1e-3) x 5 translation strata up to 1e3; distinct_nontrivial = distinct '
